@@ -22,6 +22,7 @@ for p in "$@"; do
   ( cd "$S/sim" && cargo build --release --offline -q 2>"$S/build.log" ) || { echo "$name: BUILD-FAILED"; tail -5 "$S/build.log"; continue; }
   out=$(cd "$S" && VERIF_MIRI=0 VERIF_REPLAYS="$S/replays" VERIF_SCRATCH="$S/scratch" "$S/target/release/sim" run $what --tier quick --seed "${VERIF_SEED:-1}" $( [ "$CASES" = tier ] || echo --cases "$CASES" ) 2>&1); rc=$?
   t1=$(date +%s)
+  echo "$out" > "/tmp/sens_last_${prop}_$(basename "$(dirname "$(realpath "$p")")")_${name}.out"
   v=$(echo "$out" | grep -c '^VIOLATION')
   printf "%-44s rc=%s violations=%s %4ss  %s\n" "$name" "$rc" "$v" "$((t1-t0))" "$(echo "$out" | grep '^violation:' | head -1 | cut -c1-220)"
 done
